@@ -266,14 +266,23 @@ fn paging_case(rng: &mut StdRng, b: &Value, rep: &mut Report) {
     let pool = rng.gen_bool(0.5);
     for (i, n) in lens.iter().enumerate() {
         let mut page = Vec::new();
-        for _ in 0 .. *n {
-            // any address but the terminator; consecutive pages never end with the address they were seeded with
+        for e in 0 .. *n {
+            // a follow-up page may begin with the address it was seeded with (the master repeats the seed): every listed address
+            // counts, also a repeated one
+            if e == 0 && i > 0 && *n > 1 && rng.gen_bool(0.25) {
+                if let Some(prev) = all.last().copied() {
+                    page.push(prev);
+                    all.push(prev);
+                    continue;
+                }
+            }
+            // any address but the terminator; a page never ENDS with the address it was seeded with
             let a = loop {
                 let ip: [u8; 4] = if pool { [[10, 0, 0, 9], [10, 0, 0, 9], [0, 0, 0, 0], [192, 168, 1, 1]][rng.gen_range(0 .. 4)] } else { [rng.gen(), rng.gen(), rng.gen(), rng.gen()] };
                 let port: u16 = if pool { [0u16, 1, 27015, 27016, 65535][rng.gen_range(0 .. 5)] } else { rng.gen() };
                 // (a page that ends with the very address it was seeded with would be the server echoing the seed: not a page sequence)
                 let seed_text = format!("{}.{}.{}.{}:{}", ip[0], ip[1], ip[2], ip[3], port);
-                if (ip != [0, 0, 0, 0] || port != 0) && all.last() != Some(&(ip, port)) && lasts.last() != Some(&seed_text) {
+                if (ip != [0, 0, 0, 0] || port != 0) && (e + 1 < *n || lasts.last() != Some(&seed_text)) {
                     break (ip, port);
                 }
             };
